@@ -71,8 +71,8 @@ Proof.
   - apply IH. intros k H1 H2. apply (D k); [right; exact H1 | exact H2].
 Qed.
 
-Lemma Params_c01_block_size_eq : Params.c01_block_size = 16384.
-Proof. reflexivity. Qed.
+Lemma bs_pos : 0 < bs.
+Proof. unfold bs. reflexivity. Qed.
 
 Section Hash.
 Variable H : list N -> list N.
@@ -406,7 +406,7 @@ Lemma mk_blocks_from_facts : forall fuel i no off size y, 0 < size -> In y (mk_b
   b_idx y = i /\ no <= b_no y /\ 0 < b_len y /\ b_trans y = [] /\ b_leader y = None.
 Proof.
   induction fuel as [|k IH]; intros i no off size y Hs Hin; simpl in Hin; [contradiction|].
-  assert (0 < bs) by (unfold bs; rewrite Params_c01_block_size_eq; lia).
+  pose proof bs_pos.
   destruct (size <=? bs) eqn:E.
   - destruct Hin as [<-|[]]. simpl. repeat split; auto; lia.
   - apply N.leb_gt in E. destruct Hin as [<-|Hin]; [simpl; repeat split; auto; lia|].
